@@ -284,6 +284,13 @@ def mstep_oracle(case, aff, q):
         out['watson_projector'] = proj
         out['_watson_lam_max'] = lam_max
         out['_watson_gap'] = gap
+    elif kind == 'cbmm':
+        scat = np.empty((*lead, K, D, D), dtype=np.complex128)
+        for idx in np.ndindex(*lead):
+            for k in range(K):
+                S = oe.weighted_scatter(z[idx], w_obs[idx][k])
+                scat[idx][k] = (S + S.conj().T) / 2
+        out['_bingham_scatter'] = scat
     elif kind == 'gmm':
         ct = o.get('covariance_type', 'full')
         mean = np.empty((*lead, K, D))
@@ -344,6 +351,29 @@ def compare_mstep(case, model, expected, it):
     exp = dict(expected)
     lam_max = exp.pop('_watson_lam_max', None)
     gap = exp.pop('_watson_gap', None)
+    scat = exp.pop('_bingham_scatter', None)
+    if kind == 'cbmm':
+        b = model.complex_bingham
+        V = np.asarray(b.covariance_eigenvectors)
+        lam = np.asarray(b.covariance_eigenvalues, dtype=np.float64)
+        for idx in np.ndindex(*scat.shape[:-2]):
+            S = scat[idx]
+            ev = np.linalg.eigvalsh(S)
+            res = np.linalg.norm(S @ V[idx] - V[idx] * ev) / max(ev.max(), 1e-300)
+            require(res <= 1e-7, 'bingham-m-step-eigenvectors-are-not-scatter-eigenvectors',
+                    f'iteration {it} class {idx}: residual {res:.3e}', kind=kind)
+            require(abs(lam[idx].max()) <= 1e-6, 'bingham-m-step-largest-eigenvalue-not-zero',
+                    f'{lam[idx]}', kind=kind)
+            li = np.sort(lam[idx])
+            mc = case.trainer_kwargs.get('max_concentration', np.inf)
+            if np.min(np.diff(li)) < 1e-3 or np.min(np.diff(ev)) < 1e-4 or \
+                    li.min() < -400 or li.min() <= -0.999 * mc:
+                continue       # bound / duplicate-eigenvalue guard active
+            mom = oe.bingham_moments(lam[idx])
+            require(np.max(np.abs(mom - ev)) <= 1e-4,
+                    'bingham-m-step-eigenvalues-do-not-solve-the-moment-equation',
+                    f'iteration {it} class {idx}: E|z_j|^2 {mom} scatter {ev}', kind=kind)
+        got.pop('bingham_matrix', None)
     if kind == 'cwmm':
         conc = got.pop('watson_concentration')
         mc = case.trainer_kwargs.get('max_concentration', 500)
@@ -480,6 +510,7 @@ def _make_em(kind, quick, thorough, **kw):
 
 _make_em('cacgmm', 220, 3500, max_K=3, max_D=4, max_lead=1)
 _make_em('cwmm', 160, 2500, max_K=3, max_D=4, max_lead=1)
+_make_em('cbmm', 30, 400, max_K=2, max_D=3, max_lead=0, allow_aligner=False)
 _make_em('gmm', 200, 3000, max_K=3, max_D=4, max_lead=1)
 _make_em('vmfmm', 160, 2500, max_K=3, max_D=4, max_lead=1)
 _make_em('gcacgmm', 120, 2000, max_K=3, max_D=3)
